@@ -24,7 +24,7 @@ Next ==
                        ELSE IF C.kind = "block" THEN TRUE ELSE obs'.srcfire
            IN stall' = IF obs'.coop /\ ~prog THEN stall + 1 ELSE 0
         /\ stall3' = IF obs'.coop /\ C.kind # "block" /\ ~obs'.sinkfire THEN stall3 + 1 ELSE 0
-        /\ stall2' = IF obs'.rdy /\ Len(q') >= Need(C) /\ ~obs'.srcfire THEN stall2 + 1 ELSE 0
+        /\ stall2' = IF obs'.rdy /\ Len(q') >= Need(C) + C.keep /\ ~obs'.srcfire THEN stall2 + 1 ELSE 0
   /\ l' = l + 1 /\ tid' = tid
 
 EnvLegal == ~envbad                           \* harness obligation, not a property of the code
